@@ -113,7 +113,7 @@ class Run:
                 self.ops.append(t[1:])
             elif t[0] == 'hint':
                 pass
-            else:
+            elif not self.parse_extra(t):
                 raise ValueError(f'bad scenario line {ln!r}')
         self.root = self.make_root(meths)
         self.disp = make_dispatcher()
@@ -158,13 +158,21 @@ class Run:
 
     def on_call(self, recv, mname, args, kwargs):
         oid = None if recv is None else recv._oid
-        self.obs.append(f'cb {oid} {mname} {enc_args(args, kwargs)}')
+        self.obs.append(f'{self.prefix}cb {oid} {mname} {self.enc(args, kwargs)}')
         if oid is None:
             return
         k = self.calls.get((oid, mname), 0)
         self.calls[(oid, mname)] = k + 1
         for op in self.reactions.get((oid, mname, k), ()):
             self.exec_op(op)
+
+    prefix = ''
+
+    def parse_extra(self, t):
+        return False
+
+    def enc(self, args, kwargs):
+        return enc_args(args, kwargs)
 
     def exec_op(self, t):
         kind = t[0]
@@ -221,7 +229,7 @@ class Run:
         self.build()
         for t in self.ops:
             self.top(t)
-        recv = [o.split()[1] for o in self.obs if o.startswith('cb ') and o.split()[1] != 'None']
+        recv = [o.split()[-3] for o in self.obs if ' cb ' in ' ' + o and o.split()[-3] != 'None']
         hints = [f'hint {",".join(recv)}'] if recv else []
         return self.obs, hints
 
